@@ -325,6 +325,26 @@ def apply_prior(rng, t, op):
     return t
 
 
+def large_table(rng, n, m, density, kind):
+    """n x m table whose JSON data block is far larger than any plausible IO buffer"""
+    import numpy as np
+    from biom import Table
+    arr = np.zeros((n, m))
+    for i in range(n):
+        if rng.random() < 0.03:
+            continue                                    # an all-zero row now and then
+        for j in range(m):
+            if rng.random() < density:
+                if kind == "int":
+                    arr[i, j] = float(rng.randint(1, 5000))
+                elif kind == "frac":
+                    arr[i, j] = rng.randint(1, 400000) / 64.0
+                else:
+                    arr[i, j] = gen_float(rng) or 1.0
+    omd = [{"taxonomy": ["k__A", "p__%d" % (i % 7)]} for i in range(n)] if kind != "int" else None
+    return Table(arr, ["O%d" % i for i in range(n)], ["S\"%d" % j for j in range(m)], omd, None, type="OTU table")
+
+
 # ----------------------------------------------------------------------------- one case
 def run_case(ctx, t, gen_by, date, tags=(), label=None, want_text=True):
     os.makedirs(TMP, exist_ok=True)
@@ -448,7 +468,8 @@ def run(ctx):
                 "fully dense, all-zero rows first/middle/last, all-zero columns), values over counts/dyadics/negatives/"
                 "1e-7/0.1234567891/5e-324/1.797e308/random bit patterns; IDs, metadata keys/values, table id, type and "
                 "generated-by over arbitrary Unicode scalar values incl. quotes, backslashes, controls, non-BMP; metadata of "
-                "every JSON kind incl. nesting and numpy scalars/arrays; every core.build route x prior operations; "
+                "every JSON kind incl. nesting and numpy scalars/arrays; every core.build route x prior operations; a stream of "
+                "large tables (120x80 .. 220x110, data block 60-400 KiB) through both writer paths; "
                 "non-trivial = at least two cells or one non-zero value; distinct = distinct (table, generated_by, date)")
     ctx.trusted = ["the harness tokenizer (regex lexer; string literals decoded by json.loads, float literals by float()); "
                    "cross-checked per case by Lean's own Json.parse of the raw characters",
@@ -469,6 +490,19 @@ def run(ctx):
             t = core.build(spec, route)
             run_case(ctx, t, "g", datetime.datetime(2020, 1, 2), tags=("route", route), label="route:" + route)
             ctx.count("route=" + route)
+    # large tables: the data block runs to hundreds of KiB (any buffering / chunking in a writer path shows
+    # only here); the full predicate is evaluated by the driver on them as on every other case
+    large = [(150, 90, 0.8, "int"), (120, 80, 0.5, "frac"), (170, 100, 1.0, "frac"), (130, 70, 0.9, "mixed")]
+    if not ctx.quick():
+        for _ in range(20):
+            large.append((rng.randint(100, 220), rng.randint(60, 110), rng.choice([0.3, 0.5, 0.8, 1.0]),
+                          rng.choice(["int", "frac", "mixed"])))
+    for (ln, lm, dens, kind) in large:
+        t = large_table(rng, ln, lm, dens, kind)
+        run_case(ctx, t, "large \"tables\"", datetime.datetime(2021, 3, 4, 5, 6, 7), tags=("large", kind),
+                 label="large:%dx%d:%s:%s" % (ln, lm, dens, kind))
+        ctx.count("large-table")
+        ctx.count("large-data-KiB>=64" if t.nnz * 12 >= 65536 else "large-data-KiB<64")
     n = 1500 if ctx.quick() else 15000
     max_n = 6 if ctx.quick() else 9
     for k in range(n):
